@@ -1293,7 +1293,7 @@ func RLoopOnce(c *core.Ctx) {
 // ---------------------------------------------------------------------------
 
 func RTextIdx(c *core.Ctx) {
-	c.Rule("R-TEXTIDX", "in package regexp2 every read text[v] of the input (a []rune parameter or Runner.Runtext) whose index v is a variable the function advances (v++, v += k, a for-loop variable) is preceded, on every path, by a comparison that bounds v from above (in a dominating branch condition, the loop condition, or to the left in the same && chain)", 3)
+	c.Rule("R-TEXTIDX", "in package regexp2 every read text[v] of the input (a []rune parameter or Runner.Runtext) whose index v is a variable the function advances (v++, v += k, a for-loop variable) is preceded, on every path, by a comparison that keeps v STRICTLY below a bound — v < X, v != X, or v <= X - k — (in a dominating branch condition, the loop condition, or to the left in the same && chain): a chain of non-strict comparisons up to the length of the text still admits the index one past the end", 3)
 	p := c.P
 	root := p.Pkg("")
 	info := root.TypesInfo
@@ -1369,6 +1369,7 @@ func RTextIdx(c *core.Ctx) {
 			}
 			return false
 		}
+		weak := false // a non-strict bound was seen (for the report)
 		boundsAbove := func(cond ast.Expr, val bool, v types.Object) bool {
 			found := false
 			for _, cj := range conjunctsOrNegDisjuncts(core.EdgeFact{Cond: cond, Value: val}) {
@@ -1386,15 +1387,37 @@ func RTextIdx(c *core.Ctx) {
 					lhsV = true
 				}
 				rhsV := isV(be.Y)
+				// `v <= X` leaves v == X possible: it bounds a read only when X itself is one below
+				// something (X of the form Y - k)
+				minusK := func(e ast.Expr) bool {
+					b2, ok := ast.Unparen(e).(*ast.BinaryExpr)
+					if !ok || b2.Op != token.SUB {
+						return false
+					}
+					k, ok := core.ConstInt(info, b2.Y)
+					return ok && k >= 1
+				}
 				switch {
-				case lhsV && cj.val && (be.Op == token.LSS || be.Op == token.LEQ || be.Op == token.NEQ):
+				case lhsV && cj.val && (be.Op == token.LSS || be.Op == token.NEQ):
 					found = true
-				case lhsV && !cj.val && (be.Op == token.GEQ || be.Op == token.GTR || be.Op == token.EQL):
+				case lhsV && cj.val && be.Op == token.LEQ:
+					found = found || minusK(be.Y)
+					weak = true
+				case lhsV && !cj.val && (be.Op == token.GEQ || be.Op == token.EQL):
 					found = true
-				case rhsV && cj.val && (be.Op == token.GTR || be.Op == token.GEQ || be.Op == token.NEQ):
+				case lhsV && !cj.val && be.Op == token.GTR:
+					found = found || minusK(be.Y)
+					weak = true
+				case rhsV && cj.val && (be.Op == token.GTR || be.Op == token.NEQ):
 					found = true
-				case rhsV && !cj.val && (be.Op == token.LEQ || be.Op == token.LSS || be.Op == token.EQL):
+				case rhsV && cj.val && be.Op == token.GEQ:
+					found = found || minusK(be.X)
+					weak = true
+				case rhsV && !cj.val && (be.Op == token.LEQ || be.Op == token.EQL):
 					found = true
+				case rhsV && !cj.val && be.Op == token.LSS:
+					found = found || minusK(be.X)
+					weak = true
 				}
 			}
 			return found
@@ -1447,7 +1470,7 @@ func RTextIdx(c *core.Ctx) {
 					return true
 				})
 			}
-			c.Check(guarded, fmt.Sprintf("%s / text[%s] #%d is read under an upper bound on %s", name, id.Name, ord, id.Name), ie.Pos(), "no condition on the way to `%s` compares %s with an upper bound: when %s reaches the end of the text the read is out of range", types.ExprString(ie), id.Name, id.Name)
+			c.Check(guarded, fmt.Sprintf("%s / text[%s] #%d is read under an upper bound on %s", name, id.Name, ord, id.Name), ie.Pos(), "no condition on the way to `%s` keeps %s strictly below a bound (only non-strict `<=` comparisons seen: %v): when %s reaches the end of the text the read is out of range", types.ExprString(ie), id.Name, weak, id.Name)
 			return true
 		})
 	}
